@@ -226,7 +226,14 @@ def handle (j : Json) : Json :=
           | .solved y run =>
             if run.reason == .raised then jErr "ZeroDivisionError" else
             if run.reason == .fuel then jErr "fuel" else
-            jObj [("kind", Json.str "solved"), ("y", jVec ex y), ("run", jOut ex run)]
+            -- modes in which the underlying operator / approximation are finally applied (same `flip` code path,
+            -- on probe operators that return the mode they receive)
+            let lm := (ilog mode).getD 0
+            let probe : LinOp Nat := { capability := op.capability, apply := fun _ m => m }
+            let opmode := (probe.flip ((ilog (modeTable INVERSE_BIT lm)).getD 0)).apply 0 TIMES
+            let apmode := (probe.flip lm).apply 0 TIMES
+            jObj [("kind", Json.str "solved"), ("y", jVec ex y), ("run", jOut ex run),
+                  ("opmode", jNat opmode), ("apmode", jNat apmode)]
       | none => jErr "bad-args"
     | _, _, _, _, _ => jErr "bad-args"
   | _, _ => jErr "bad-op"
